@@ -240,6 +240,17 @@ func (c *Controller) blockedNow(en []Choice) []string {
 	return out
 }
 
+func (c *Controller) anySelectParked() bool {
+	c.mu.Lock()
+	defer c.mu.Unlock()
+	for _, g := range c.gs {
+		if !g.done && g.parked && g.selRdy != nil {
+			return true
+		}
+	}
+	return false
+}
+
 func (c *Controller) find(name string) *gstate {
 	c.mu.Lock()
 	defer c.mu.Unlock()
@@ -256,6 +267,12 @@ func (c *Controller) Run(s Strategy) {
 	prev := ""
 	for step := 0; ; step++ {
 		en := c.enabledChoices()
+		// nothing enabled but somebody waits in a select: it may depend on real time (a timer channel
+		// introduced by a code change); give it a moment before declaring quiescence
+		for w := 0; len(en) == 0 && w < 30 && c.anySelectParked(); w++ {
+			time.Sleep(10 * time.Millisecond)
+			en = c.enabledChoices()
+		}
 		if len(en) == 0 {
 			c.End = "quiescent"
 			c.mu.Lock()
